@@ -443,8 +443,9 @@ def stubs_fixed(tier):
                 # the error an "err" entry stands for: every RpcError variant an inner stub can produce without a transport
                 for ek in (("deadline", "shutdown", "server") if "err" in script else ("deadline",)):
                     k += 1
+                    # the caller's deadline is either ahead or long elapsed: the stub's promise does not depend on it
                     out.append(dict(id="enum:retry:%d" % k, cfg={"kind": "retry", "n": 1, "script": list(script), "policy": policy,
-                                                                 "errkind": ek}, steps=[]))
+                                                                 "errkind": ek, "elapsed": k % 2 == 0}, steps=[]))
     for n in range(1, 5):
         for calls in (1, n, n + 1, 2 * n + 1):
             out.append(dict(id="enum:rri:%d:%d" % (n, calls), cfg={"kind": "rri", "n": n, "calls": calls}, steps=[]))
